@@ -61,6 +61,7 @@ def one_case(ctx, rng, wd, K=None, force=None, force_N=None):
                                         big="xl" if ctx.thorough else True, poskind="gas" if force_N else None)
     d = inf["d"]
     ppp = gc.random_mask(rng, d)
+    gc.unwrap_in_place(rng, snaps.snapshots, inf["Hs"], ppp)       # unwrapped coordinates: the same periodic configuration
     Lmin = float(np.min(np.diag(cell["H"])))
     w = float(rng.uniform(0.02, 0.25) * Lmin)
     w = min(w, Lmin / 4.000001)
